@@ -94,15 +94,18 @@ def main():
         out_dir = os.path.join(VERIF, "seeded", a.name)
         os.makedirs(out_dir, exist_ok=True)
         for f in ("patch.diff", "demo_test.go", "notes.md"):
-            if os.path.exists(os.path.join(a.dir, f)):
+            if os.path.exists(os.path.join(a.dir, f)) and os.path.realpath(os.path.join(a.dir, f)) != os.path.realpath(os.path.join(out_dir, f)):
                 shutil.copy(os.path.join(a.dir, f), os.path.join(out_dir, f))
         old = {}
         mp = os.path.join(out_dir, "meta.json")
         if os.path.exists(mp):
             old = json.load(open(mp))
-            meta["ran"] = old.get("ran", []) + meta["ran"]
-            if not meta["needs_to_manifest"]:
-                meta["needs_to_manifest"] = old.get("needs_to_manifest", "")
+            meta["ran"] = (old.get("ran", []) if not os.environ.get("VERIF_SWEEP") else []) + meta["ran"]
+            for k in ("needs_to_manifest", "written_by"):
+                if not meta.get(k):
+                    meta[k] = old.get(k, "")
+            if old.get("breaks_property"):
+                meta["breaks_property"] = old["breaks_property"]
         meta["detected_by"] = sorted({r["check"] + "/" + r["tier"] for r in meta["ran"] if r["detected"]})
         json.dump(meta, open(mp, "w"), indent=1)
         print(json.dumps({k: v for k, v in meta.items() if k != "ran"}, indent=1))
